@@ -187,6 +187,26 @@ func c11Run(c *core.Ctx) {
 			return true
 		})
 	}
+	// scale family, intact and truncated at a few points (deep recursion on error paths)
+	for i, sp := range gen.Scale(c.Thorough()) {
+		if !c.Mine(int64(i)) || c.Tick() {
+			continue
+		}
+		for _, cut := range []int{len(sp.Src), len(sp.Src) / 2, len(sp.Src) - 1, len(sp.Src) / 3} {
+			src := sp.Src[:cut]
+			c.Cur(sp.Name)
+			c.Inc("inputs")
+			c.Inc("scale_inputs")
+			for mi := range Modes {
+				c.Inc("parses")
+				k, d, _ := c11Check(src, mi, cfgs[:4])
+				if k != "" && c.ShrinkOK("scale"+k) {
+					pl, _ := json.Marshal(c11Payload{src, mi})
+					c.Violate(core.Violation{Kind: k, Config: Modes[mi].String(), Case: fmt.Sprintf("%s[:%d]", sp.Name, cut), Detail: core.Short(d, 600), Payload: pl, Size: 1000 + cut})
+				}
+			}
+		}
+	}
 	// byte strings <= 4
 	A := lexAlphabet
 	for L := 1; L <= 4; L++ {
